@@ -156,8 +156,8 @@ Proof.
   apply bind_ok in H. destruct H as (s1 & H1 & H). inversion H; subst.
   eapply PR_trans; [|apply (PR_same s1 (emit s1 (OResp (RClose 0)))); [reflexivity | reflexivity | apply LS_emit; intros; discriminate]].
   eapply PR_trans; [|apply PR_job; [eapply check_termination_CP; exact H1 | eapply check_termination_LS; exact H1 | eapply SM_chg; eapply check_termination_chg; exact H1]].
-  apply PR_hq; [reflexivity | apply LS_emit; intros; discriminate|].
-  intros x Hx. unfold hq_of, emit, hq_set_job. cbn [fst with_hq s_hq]. unfold seen in *. cbn [h_jobs h_counter].
+  apply PR_hq; [reflexivity | unfold LS, emit, hq_set_job; cbn [snd]; rewrite launches_app; cbn; apply app_nil_r|].
+  intros x Hx. unfold hq_of, emit, hq_set_job in *. cbn [fst with_hq s_hq]. unfold seen in *. cbn [h_jobs h_counter].
   apply andb_true_iff in Hx. destruct Hx as [Ha Hb]. rewrite Ha. cbn [andb]. rewrite find_job_set'. cbn [j_id].
   pose proof (find_job_id _ _ _ Ef) as Eid. unfold hq_jobs in Ef.
   destruct (N.eqb (fst x) (j_id j)) eqn:E; [|exact Hb]. apply N.eqb_eq in E. rewrite E, Eid, Ef in Hb. cbn [j_tasks]. exact Hb.
@@ -178,7 +178,7 @@ Lemma handle_forget_PR s jid s' : handle_forget s jid = Ok s' -> PR s s'.
 Proof.
   unfold handle_forget. intros H. destruct (find_job _ jid) as [j|]; [|inversion H; subst; apply PR_same; try reflexivity; apply LS_emit; intros; discriminate].
   apply bind_ok in H. destruct H as (na & _ & H). destruct (negb (j_open j) && na); inversion H; subst; [|apply PR_same; try reflexivity; apply LS_emit; intros; discriminate].
-  apply PR_hq; [reflexivity | apply LS_emit; intros; discriminate|].
+  apply PR_hq; [reflexivity | unfold LS, emit, hq_with; cbn [snd]; rewrite launches_app; cbn; apply app_nil_r|].
   intros x Hx. unfold hq_of, emit, hq_with, hq_jobs, hq_counter. cbn [fst with_hq s_hq]. apply seen_del. exact Hx.
 Qed.
 End Pass.
